@@ -30,6 +30,7 @@ type CConfig struct {
 	Rejected    bool     `json:"rejected,omitempty"`  // before the chains were registered, the outsider applied for the same chain ids and was rejected
 	KV          bool     `json:"kv,omitempty"`        // a user WASM contract with storage is deployed and invoked (succeeding, trapping, running out of gas)
 	BigBlocks   bool     `json:"big_blocks"`          // few cuts: most blocks are filled to the sequencer's limit
+	ViewWrites  int      `json:"view_writes,omitempty"` // permille of the blocks after which state-writing transactions are sent through the node's read-only executor (second sentence of C07)
 }
 
 // CStep is one symbolic workload step. Operands are resolved against the model at execution time
@@ -231,6 +232,10 @@ func Generate(prop string, r *sim.Rand, tier string) *sim.Plan {
 		for _, s := range g.step(prop) {
 			p.Steps = append(p.Steps, sim.MustJSON(s))
 		}
+	}
+	if prop == "C07" && r.Chance(0.5) {
+		// drawn last so that everything above is the plan it was before this knob existed
+		cfg.ViewWrites = []int{100, 300, 700}[r.Intn(3)]
 	}
 	p.Config = sim.MustJSON(cfg)
 	return p
